@@ -340,7 +340,11 @@ def _alloc_candidates_multiple_providers(rg_ctx, rw_ctx, rp_candidates):
     # Next, build up a set of allocation requests. These allocation requests
     # are AllocationRequest objects, containing resource provider UUIDs,
     # resource class names and amounts to consume from that resource provider
-    alloc_requests = set()
+    # NOTE: a list, not a set: AllocationRequest equality ignores the anchor,
+    # and a request satisfied entirely by sharing providers is wanted once for
+    # every tree it can be anchored to, so that it can be merged with the
+    # results of the other request groups in each of those trees.
+    alloc_requests = []
 
     # Let's look into each tree
     for root_id, alloc_dict in tree_dict.items():
@@ -383,7 +387,7 @@ def _alloc_candidates_multiple_providers(rg_ctx, rw_ctx, rp_candidates):
                                           anchor_root_provider_uuid=root_uuid,
                                           mappings=mappings)
             root_alloc_reqs.add(alloc_req)
-        alloc_requests |= root_alloc_reqs
+        alloc_requests.extend(root_alloc_reqs)
     return alloc_requests
 
 
